@@ -534,7 +534,6 @@ impl Vm {
 
     if_let_obj!(ObjectKind::Class(error_class) = (error_class) {
       if !error_class.is_subclass(self.builtin.errors.error) {
-        self.fiber.error_while_handling();
         self.runtime_error_from_str(self.builtin.errors.type_, "Catch block must be blank or a subclass of Error.")
       } else {
 
@@ -547,7 +546,6 @@ impl Vm {
       }
 
     } else {
-      self.fiber.error_while_handling();
       self.runtime_error_from_str(self.builtin.errors.type_, "Catch block must be blank or a subclass of Error.")
     })
   }}
